@@ -18,7 +18,8 @@ EXPLANATION = (
     'the pencil proof of DESIGN.md section 6 these clauses give non-increasing pop priorities for all '
     'inputs. Decides the code shape, not float rounding or the step budget.'
     " Third round: the span rule of unary steps, the sort of the goal cell and 'every accepted chart entry is expanded unconditionally' (R1.5) are checked here too: the best derivation must be reachable and handed out first."
-    " Fourth round: the admission rule of supertags (R1.6, the beam rule of C16), no module-level table written by the grammar modules (R1.7), the per-sentence loop rules of the glue code and 'the options are read into the search configuration once, before the sentence loop' (R1.3).")
+    " Fourth round: the admission rule of supertags (R1.6, the beam rule of C16), no module-level table written by the grammar modules (R1.7), the per-sentence loop rules of the glue code and 'the options are read into the search configuration once, before the sentence loop' (R1.3)."
+    " Fifth round: the chunking / in-order gather rules of the pooled path (shared with C11) are conditions of 'the parse returned for a sentence'.")
 TRUSTED = ['clang-14 front end (-fsyntax-only, JSON AST)', 'CPython ast', 'rule table in DESIGN.md sections 2/C01 and 6']
 
 
